@@ -134,6 +134,25 @@ def _uf(name, ch):
     return sp.Function(name)(*ch)
 
 
+class CasTimeout(Exception):
+    pass
+
+
+def timed(fn, seconds=30.0):
+    """run a CAS call under a wall-clock guard (SIGALRM; main thread of the worker process) -> result or CasTimeout"""
+    import signal
+
+    def _h(sig, frm):
+        raise CasTimeout(f"CAS call exceeded {seconds}s")
+    old = signal.signal(signal.SIGALRM, _h)
+    signal.setitimer(signal.ITIMER_REAL, seconds)
+    try:
+        return fn()
+    finally:
+        signal.setitimer(signal.ITIMER_REAL, 0)
+        signal.signal(signal.SIGALRM, old)
+
+
 def snap_float_artifacts(expr):
     """A1 (floats are reals): a rational coefficient with a huge denominator that is within 1e-13 (relative) of a small
     rational is the image of a rounded float operation of the code (e.g. 6 * (1 / 6.0) = 0.9999999999999999); replace
